@@ -95,6 +95,8 @@ Conc(s) ==
     [] s = "bm"   -> <<BS,"b","e","g","i","n","{","m","i","n","i","p","a","g","e","}","{","z","}">>  \* paragraph-forming
     [] s = "em"   -> <<BS,"e","n","d","{","m","i","n","i","p","a","g","e","}">>
     [] s = "vb"   -> <<BS,"v","e","r","b","|","a","%","|">>          \* \verb|a%|
+    [] s = "vbd"  -> <<BS,"v","e","r","b","|","$","|">>              \* \verb|$| : verbatim text that reads like a delimiter
+    [] s = "vbb"  -> <<BS,"v","e","r","b","|","{","|">>
     [] s = "vrb"  -> <<BS,"b","e","g","i","n","{","v","e","r","b","a","t","i","m","}",NL,"a","%",NL,BS,"e","n","d","{","v","e","r","b","a","t","i","m","}">>
     [] s = "vrb2" -> <<BS,"b","e","g","i","n"," ","{","v","e","r","b","a","t","i","m","}","a","%",BS,"e","n","d","{","v","e","r","b","a","t","i","m","}">>
     \* more of the catalogue (list-of-macros.md): item with label, proof, tabular, accent, horizontal space, phantom, optional arguments
@@ -152,6 +154,8 @@ Conc(s) ==
     [] s = "FveE" -> <<BS,"b","e","g","i","n","{","v","e","r","b","a","t","i","m","}","a">>
     [] s = "Fsk"  -> <<"%","%","%"," ","L","T","-","S","K","I","P","-","B","E","G","I","N",NL>>
     [] s = "Facc" -> <<BS,"'","1">>
+    [] s = "FaccD" -> <<BS,"[","y",BS,"m","b","o","x","{",BS,"'","1","}",BS,"]">>      \* the same fault in a text part of a displayed equation
+    [] s = "FaccI" -> <<"$","y",BS,"m","b","o","x","{",BS,"'","1","}","$">>
     [] s = "Flt"  -> <<BS,"L","T","i","n","p","u","t","{","n","o","f","i","l","e",".","t","e","x","}">>
     \* maths (C10, C11)
     [] s = "mo"  -> <<"$">> [] s = "mc" -> <<"$">> [] s = "mo2" -> <<BS,"(">> [] s = "mc2" -> <<BS,")">>
@@ -209,10 +213,10 @@ LangSel == {"babD", "selD", "selE", "selF"}
 LangOpen == {"flD", "flE", "flF", "olD", "olsF"}
 LangOf(s) == CASE s \in {"babD", "selD", "flD", "olD"} -> "de-DE" [] s \in {"selE", "flE"} -> "en-GB" [] s \in {"selF", "flF", "olsF"} -> "fr"
 LangSyms == LangSel \cup LangOpen \cup {"eol", "eols"}
-FaultSyms == {"Fim","FimE","Fdm","FdmE","FeqE","FargE","FoptE","FvbE","FveE","Fsk","Facc","Flt"}
+FaultSyms == {"Fim","FimE","Fdm","FdmE","FeqE","FargE","FoptE","FvbE","FveE","Fsk","Facc","FaccD","FaccI","Flt"}
 EofFaults == {"FimE","FdmE","FeqE","FargE","FoptE","FvbE","FveE"}
 \* offset of the problem relative to the start of the symbol
-FaultOff(s) == CASE s = "FargE" -> 13 [] s = "FoptE" -> 5 [] OTHER -> 0
+FaultOff(s) == CASE s = "FargE" -> 13 [] s = "FoptE" -> 5 [] s = "FaccD" -> 9 [] s = "FaccI" -> 8 [] OTHER -> 0
 OpenSyms == {"itl", "capo", "seco", "alt", "xo","ob","add","fbx","tc","fn","cap","sec","sub","uB","uC","uCo","uD","uE","uF","uG","cto"}
 MathOpen == {"mo", "mo2"}
 DispOpen == {"ba", "bq", "bd", "bdd"}
@@ -244,7 +248,7 @@ EnvOf(s) == CASE s \in {"bi","ei"} -> "itemize" [] s \in {"be","ee"} -> "enumera
               [] s \in {"bu","eu"} -> "unk" [] s \in {"bl","el"} -> "lstlisting" [] s \in {"bm","em"} -> "minipage"
 
 AllSyms == Visible \cup ReplSyms \cup OpenSyms \cup BeginSyms \cup EndSyms \cup
-   {"sp","nl","tab","cm","lb","ix","uk","uk2","cb","skp","par","im","imp","ref","cite","skb","ske","q","fnq","it","vb","vrb","vrb2","ocb","ctc","rbk","up","uA","uBt","uH","hsu","phu","cmf","cmu","acb","ltE","ltD","gld","gls","ilc","tamp","tbsl","acc","hsp","hs0","phn","tbs","ntm","fct"} \cup DefSyms \cup MathSyms \cup FaultSyms \cup LangSyms
+   {"sp","nl","tab","cm","lb","ix","uk","uk2","cb","skp","par","im","imp","ref","cite","skb","ske","q","fnq","it","vb","vbd","vbb","vrb","vrb2","ocb","ctc","rbk","up","uA","uBt","uH","hsu","phu","cmf","cmu","acb","ltE","ltD","gld","gls","ilc","tamp","tbsl","acc","hsp","hs0","phn","tbs","ntm","fct"} \cup DefSyms \cup MathSyms \cup FaultSyms \cup LangSyms
 
 (***************************************************************************)
 (* Reference state                                                         *)
@@ -308,6 +312,8 @@ AllowedCtx(st, s) ==
   \* (excluded from C02/C06, see the statement of C06): only directly after a visible character
   /\ s \in {"tie","thin"} => st.vis
   /\ s = "cb" => st.ctx # <<>> /\ Top(st).k \in {"grp","arg","fn","sec","marg","hid","lang"}
+  \* LaTeX does not allow \verb in the argument of another macro; the delimiter-like variants are generated outside arguments only
+  /\ s \in {"vbd","vbb"} => \A i \in 1..Len(st.ctx) : st.ctx[i].k \in {"grp","env","lenv"}
   \* (\\ directly before the end of a tabular leaves a blank line: C05's matter, and & or \\ alone on a line likewise)
   /\ s = "et" => st.ls \notin {"tbsl"}
   /\ s = "eol" => st.ctx # <<>> /\ Top(st).k = "lenv" /\ Top(st).nm = "olD"
@@ -462,6 +468,8 @@ Step(st, s) ==
     [] s = "cite" -> NoteText(Emit(s1, <<Lay("x"), It("f", "[", p0+1, p1, 0), It("f", "0", p0+1, p1, 0),
                                         It("f", "]", p0+1, p1, 0), Lay("x")>>), "]")
     [] s = "vb" -> NoteText(Emit(s1, <<Lay("x"), It("c", "a", p0+7, p0+7, 0), It("c", "%", p0+8, p0+8, 0), Lay("x")>>), "%")
+    [] s = "vbd" -> NoteText(Emit(s1, <<Lay("x"), It("c", "$", p0+7, p0+7, 0), Lay("x")>>), "$")
+    [] s = "vbb" -> NoteText(Emit(s1, <<Lay("x"), It("c", "{", p0+7, p0+7, 0), Lay("x")>>), "{")
     \* verbatim environment: content copied with exact positions, framed by paragraph breaks
     [] s = "vrb" -> NoteText(Emit(s1, <<It("g", "ws", p0+1, p1, 0), Lay("pb"), Lay("x"), It("c", "a", p0+18, p0+18, 0), It("c", "%", p0+19, p0+19, 0),
                                        Lay("x"), It("g", "ws", p0+1, p1, 0), Lay("pb")>>), "%")
